@@ -57,7 +57,7 @@ def _expand(hists):
                 if dispose:
                     dispose(st)
                 continue            # never expand beyond a violating transition
-            k = digest(system.canon(st))
+            k = _key(system, st)
             if dispose:
                 dispose(st)
             if k in local_seen:
@@ -69,12 +69,23 @@ def _expand(hists):
     return succ, viols, ntrans, nrej, outcomes
 
 
+def _key(system, st):
+    """State identity for the search: the property module's canonical form, refined by a structural rendering of everything
+    reachable from the real object (systems opt in with `deep = True`): two states the hand-written form cannot tell apart are
+    still explored separately when the implementation itself can."""
+    c = system.canon(st)
+    if getattr(system, "deep", False):
+        from .harness import deep_state
+        return digest((c, deep_state(st.g)))
+    return digest(c)
+
+
 def bfs(system, depth, seed=0, max_states=None, check_snapshot_depth=2, label=""):
     """Level-synchronous BFS. Returns a stats dict and a list of Violation."""
     global _SYSTEM, _OPTS
     _SYSTEM, _OPTS = system, {"seed": seed}
     root = system.fresh()
-    seen = {digest(system.canon(root))}
+    seen = {_key(system, root)}
     if hasattr(system, "dispose"):
         system.dispose(root)
     frontier = [[]]
